@@ -93,8 +93,23 @@ class KeepAliveFamily(ScenarioFamily):
         return True
 
 
+def hang_oracle(res):
+    """A keep-alive history against well-behaved servers never hangs (dead- or livelock):
+    a request that spins between a connection that refuses it and a pool that keeps
+    handing it out never gets the reuse the property promises."""
+    if res.error == "deadlock":
+        from .c12 import blocked_sites
+
+        res.world.violate("C09", "history-hangs:" + ",".join(blocked_sites(res))[:120],
+                          {"blocked": res.blocked})
+        return True
+    return False
+
+
 def keepalive_oracle(res, scn):
     w = res.world
+    if hang_oracle(res):
+        return
     pool = scn["pool"]
     expiry = pool.get("keepalive_expiry")
     maxc = pool.get("max_connections")
@@ -280,7 +295,7 @@ class NoReasonFamily(ScenarioFamily):
 
     def post(self, res, scn):
         w = res.world
-        if res.error:
+        if hang_oracle(res) or res.error:
             return
         led = w.ledger
         closed_pool = led.of("pool_closed")
